@@ -49,7 +49,7 @@ Proof.
   destruct (negb (point_ok (mem ch) n)); [reflexivity|].
   destruct (negb pl); [reflexivity|].
   destruct (validate_holder_state warn prof (mem ch) n c) as [[|]|]; try reflexivity.
-  destruct (negb sg); [reflexivity|].
+  destruct sg; [| reflexivity | reflexivity].
   destruct (n =? next_h (mem ch)); cbn; [discriminate | reflexivity].
 Qed.
 
@@ -172,7 +172,7 @@ Proof.
     destruct (negb pol_ok) eqn:Epl; [cbn; intros Hs; inversion Hs; reflexivity|].
     destruct (validate_holder_state warn prof (mem ch) n c) as [[|]|] eqn:Evs;
       [| cbn; intros Hs; inversion Hs; reflexivity | cbn; intros Hs; inversion Hs; subst; discriminate].
-    destruct (negb sig_ok); [cbn; intros Hs; inversion Hs; reflexivity|].
+    destruct sig_ok; [| cbn; intros Hs; inversion Hs; reflexivity | cbn; intros Hs; inversion Hs; subst; discriminate].
     destruct (n =? next_h (mem ch)) eqn:En; cbn [st snd fst ok0].
     + (* stored as the pending commitment: the revocation that follows cannot refuse *)
       apply N.eqb_eq in En. apply negb_false_iff in Epl. specialize (Hpy Epl). subst pay_ok.
@@ -203,7 +203,7 @@ Proof.
     destruct (negb pol_ok); [cbn; intros Hs; inversion Hs; reflexivity|].
     destruct (validate_holder_state warn prof (mem ch) n c) as [[|]|];
       [| cbn; intros Hs; inversion Hs; reflexivity | cbn; intros Hs; inversion Hs; subst; discriminate].
-    destruct (negb sig_ok); [cbn; intros Hs; inversion Hs; reflexivity|].
+    destruct sig_ok; [| cbn; intros Hs; inversion Hs; reflexivity | cbn; intros Hs; inversion Hs; subst; discriminate].
     destruct (n =? next_h (mem ch)) eqn:En; cbn [st snd fst ok0].
     + apply N.eqb_eq in En. intros Hs. exfalso.
       destruct (1 <=? n) eqn:E1.
